@@ -1,75 +1,149 @@
 import CollectionsC.Properties.C10
 import CollectionsC.Proofs.PQueueCross
-/-! # C14 (priority queue part): only the configured allocator triple is used -/
+/-! # C14 (priority queue part): only the allocator triple the queue was configured with is used
+
+The model's queue carries its triple (`.conf` for `cc_pqueue_new_conf`, `.libc` for `cc_pqueue_new`)
+and every allocation/release goes through `Mem.allocT/freeT q.triple`.  `Mem.otherSame m m' t` says
+that `m'` differs from `m` only in the counters that belong to triple `t`. -/
 namespace CC.Properties.C14PQueue
 open CC CC.Spec
 open CC.Spec.PQ (Op Out)
 
-/-- constructor and destructors: every allocation and release goes through the configured triple
-(the C-library counter of the ledger never moves) -/
-theorem new_destroy_libc_invariant (cap : Nat) (exGe : Nat → Bool) (q : PQueue) (m : Mem) :
-    (PQueue.new cap exGe m).2.2.libc = m.libc ∧ (q.destroy m).libc = m.libc ∧ (q.destroyCb m).2.libc = m.libc := by
-  refine ⟨?_, ?_, ?_⟩
-  · unfold PQueue.new
-    split
-    · rfl
-    · split
-      · rfl
-      · dsimp only
-        cases h1 : m.alloc.1
-        · simp [(PQueue.alloc_false_fields m h1).2.2.1]
-        · cases h2 : m.alloc.2.alloc.1
-          · simp [(PQueue.free_fields _).2.2.1, (PQueue.alloc_false_fields _ h2).2.2.1, (PQueue.alloc_true_fields m h1).2.2.1]
-          · simp [(PQueue.alloc_true_fields _ h2).2.2.1, (PQueue.alloc_true_fields m h1).2.2.1]
-  · simp [PQueue.destroy, (PQueue.free_fields _).2.2.1]
-  · simp [PQueue.destroyCb, PQueue.destroy, (PQueue.free_fields _).2.2.1]
-
-/-- every operation of a history keeps the C-library counter: push (with growth), top, pop -/
-theorem step_libc_invariant {cmp : Nat → Nat → Int} (tp : TotalPreorder cmp) (grow : Nat → Nat) (hg : PQueue.GrowOk grow)
-    (q : PQueue) (op : Op) (m : Mem) (h : PQueue.Inv' cmp q) (hl : 2 ≤ m.live) :
-    (PQueue.step cmp grow q op m).2.2.libc = m.libc := by
+/-- every step touches only the ledger counters of the queue's own triple -/
+theorem step_uses_own_triple {cmp : Nat → Nat → Int} (tp : TotalPreorder cmp) (grow : Nat → Nat)
+    (q : PQueue) (op : Op) (m : Mem) (h : PQueue.Inv' cmp q) (hl : 2 ≤ m.liveT q.triple) :
+    Mem.otherSame m (PQueue.step cmp grow q op m).2.2 q.triple := by
   cases op with
-  | push x => exact PQueue.push_libc tp grow hg q x m h (by omega)
+  | push x => exact PQueue.push_other tp grow q x m h (by omega)
   | top =>
-    rcases PQueue.top_spec tp q m h with ⟨_, e⟩ | ⟨x, e, _⟩ <;> simp only [PQueue.step, e]
+    rcases PQueue.top_spec tp q m h with ⟨_, e⟩ | ⟨x, e, _⟩ <;> simp only [PQueue.step, e] <;>
+      exact Mem.otherSame_refl _ _
   | pop =>
     rcases PQueue.pop_spec tp q m h with ⟨_, e⟩ | ⟨x, _, _, _, _, _, _, e⟩
-    · simp only [PQueue.step, e]
-    · simp only [PQueue.step, e]
+    · simp only [PQueue.step, e]; exact Mem.otherSame_refl _ _
+    · simp only [PQueue.step, e]; exact Mem.otherSame_refl _ _
 
-theorem history_libc_invariant {cmp : Nat → Nat → Int} (tp : TotalPreorder cmp) (grow : Nat → Nat) (hg : PQueue.GrowOk grow)
-    (ops : List Op) (q : PQueue) (m : Mem) (h : PQueue.Inv' cmp q) (hl : 2 ≤ m.live) :
-    (PQueue.run cmp grow q ops m).2.2.libc = m.libc := by
+theorem history_uses_own_triple {cmp : Nat → Nat → Int} (tp : TotalPreorder cmp) (grow : Nat → Nat)
+    (ops : List Op) (q : PQueue) (m : Mem) (h : PQueue.Inv' cmp q) (hl : 2 ≤ m.liveT q.triple) :
+    Mem.otherSame m (PQueue.run cmp grow q ops m).2.2 q.triple := by
   induction ops generalizing q m with
-  | nil => rfl
+  | nil => exact Mem.otherSame_refl _ _
   | cons op ops ih =>
-    obtain ⟨_, h2, h3, _⟩ := C10.step_refines tp grow hg q op m h hl
+    obtain ⟨_, h2, ht, h3, _⟩ := C10.step_refines tp grow q op m h hl
+    have h1 := step_uses_own_triple tp grow q op m h hl
+    have := ih (PQueue.step cmp grow q op m).2.1 (PQueue.step cmp grow q op m).2.2 h2 (by rw [ht]; omega)
+    rw [ht] at this
     simp only [PQueue.run]
-    rw [ih _ _ h2 (by omega), step_libc_invariant tp grow hg q op m h hl]
+    exact Mem.otherSame_trans h1 this
 
-/-- **allocator independent**: the status, the out-value and the resulting queue of every operation
-depend on the ledger only through its refusal schedule — the queue behaves on a pool exactly as on
-malloc as long as the pool does not refuse -/
+/-- **conf uses only conf**: a queue built by `cc_pqueue_new_conf` never causes a C-library
+allocation or release — the C-library event counters and its live count never move (falsifiable: a
+model call through `.libc` would increment `libc`, see `Mem.allocT_libc_counts`) -/
+theorem conf_uses_only_conf {cmp : Nat → Nat → Int} (tp : TotalPreorder cmp) (grow : Nat → Nat)
+    (ops : List Op) (q : PQueue) (m : Mem) (h : PQueue.Inv' cmp q) (ht : q.triple = .conf) (hl : 2 ≤ m.live) :
+    (PQueue.run cmp grow q ops m).2.2.libc = m.libc ∧ (PQueue.run cmp grow q ops m).2.2.liveLibc = m.liveLibc ∧
+    (PQueue.run cmp grow q ops m).2.2.lalloc = m.lalloc ∧ (PQueue.run cmp grow q ops m).2.2.lfree = m.lfree := by
+  have := history_uses_own_triple tp grow ops q m h (by rw [ht]; exact hl)
+  rw [ht] at this
+  exact this
+
+/-- **default uses only libc**: a queue built by `cc_pqueue_new` never touches the configured
+allocator — its live count, event counters, refusal counter and schedule never move — and no push
+can be refused -/
+theorem default_uses_only_libc {cmp : Nat → Nat → Int} (tp : TotalPreorder cmp) (grow : Nat → Nat)
+    (ops : List Op) (q : PQueue) (m : Mem) (h : PQueue.Inv' cmp q) (ht : q.triple = .libc) (hl : 2 ≤ m.liveLibc) :
+    (PQueue.run cmp grow q ops m).2.2.live = m.live ∧ (PQueue.run cmp grow q ops m).2.2.nalloc = m.nalloc ∧
+    (PQueue.run cmp grow q ops m).2.2.nfree = m.nfree ∧ (PQueue.run cmp grow q ops m).2.2.nrefused = m.nrefused ∧
+    (PQueue.run cmp grow q ops m).2.2.sched = m.sched := by
+  have := history_uses_own_triple tp grow ops q m h (by rw [ht]; exact hl)
+  rw [ht] at this
+  exact this
+
+theorem default_never_refused {cmp : Nat → Nat → Int} (tp : TotalPreorder cmp) (grow : Nat → Nat)
+    (q : PQueue) (x : Nat) (m : Mem) (h : PQueue.Inv' cmp q) (ht : q.triple = .libc) (hl : 2 ≤ m.liveLibc) :
+    (PQueue.push cmp grow q x m).1 ≠ .errAlloc := by
+  rcases PQueue.push_spec tp grow q x m h (by rw [ht]; exact Nat.lt_of_lt_of_le (by decide) hl) with ⟨e, _⟩ | ⟨⟨⟨_, e⟩ | e, _⟩⟩
+  · rw [e]; simp
+  · rw [ht] at e; cases e
+  · rw [e]; simp
+
+/-- the constructor and the destructors use the triple they are given / the queue carries, and
+the constructed queue carries exactly the triple of its configuration -/
+theorem new_destroy_use_own_triple (cap : Nat) (exGe : Nat → Bool) (t : Triple) (q : PQueue) (m : Mem) :
+    Mem.otherSame m (PQueue.new cap exGe t m).2.2 t ∧ (∀ q', (PQueue.new cap exGe t m).2.1 = some q' → q'.triple = t) ∧
+    Mem.otherSame m (q.destroy m) q.triple ∧ Mem.otherSame m (q.destroyCb m).2 q.triple := by
+  refine ⟨?_, ?_, ?_, ?_⟩
+  · unfold PQueue.new
+    split
+    · exact Mem.otherSame_refl _ _
+    · split
+      · exact Mem.otherSame_refl _ _
+      · dsimp only
+        split
+        · exact Mem.otherSame_allocT m t
+        · split
+          · exact Mem.otherSame_trans (Mem.otherSame_trans (Mem.otherSame_allocT m t) (Mem.otherSame_allocT _ t))
+              (Mem.otherSame_freeT _ t)
+          · exact Mem.otherSame_trans (Mem.otherSame_allocT m t) (Mem.otherSame_allocT _ t)
+  · intro q' hq'
+    unfold PQueue.new at hq'
+    split at hq'
+    · cases hq'
+    · split at hq'
+      · cases hq'
+      · dsimp only at hq'
+        split at hq'
+        · cases hq'
+        · split at hq'
+          · cases hq'
+          · simp only [Option.some.injEq] at hq'; rw [← hq']
+  · exact Mem.otherSame_trans (Mem.otherSame_freeT m q.triple) (Mem.otherSame_freeT _ q.triple)
+  · simp only [PQueue.destroyCb, PQueue.destroy]
+    exact Mem.otherSame_trans (Mem.otherSame_trans (Mem.otherSame_check m _ q.triple) (Mem.otherSame_freeT _ q.triple))
+      (Mem.otherSame_freeT _ q.triple)
+
+/-- **allocator independent** (step): status, out-value and resulting queue depend on the ledger
+only through its refusal schedule, and so does the schedule that is left — hence the statement chains -/
 theorem allocator_independent (cmp : Nat → Nat → Int) (grow : Nat → Nat) (q : PQueue) (op : Op) (m m' : Mem)
     (hs : m.sched = m'.sched) :
     (PQueue.step cmp grow q op m).1 = (PQueue.step cmp grow q op m').1 ∧
-    (PQueue.step cmp grow q op m).2.1 = (PQueue.step cmp grow q op m').2.1 := by
+    (PQueue.step cmp grow q op m).2.1 = (PQueue.step cmp grow q op m').2.1 ∧
+    (PQueue.step cmp grow q op m).2.2.sched = (PQueue.step cmp grow q op m').2.2.sched := by
   cases op with
   | push x =>
     have := PQueue.push_indep cmp grow q x m m' hs
-    simp only [PQueue.step, this.1, this.2.1]; exact ⟨trivial, trivial⟩
+    simp only [PQueue.step, this.1, this.2.1]; exact ⟨trivial, trivial, this.2.2⟩
   | top =>
     have := PQueue.top_indep q m m'
-    simp only [PQueue.step, this.1, this.2]; exact ⟨trivial, trivial⟩
+    refine ⟨by simp only [PQueue.step, this.1, this.2], rfl, ?_⟩
+    simp only [PQueue.step, PQueue.top]; split <;> simp [hs]
   | pop =>
     have := PQueue.pop_indep cmp q m m'
-    simp only [PQueue.step, this.1, this.2.1, this.2.2]; exact ⟨trivial, trivial⟩
+    refine ⟨by simp only [PQueue.step, this.1, this.2.1], by simp only [PQueue.step, this.2.2], ?_⟩
+    exact PQueue.pop_sched cmp q m m' hs
+
+/-- **allocator independent** (history): two ledgers with the same schedule give the same statuses,
+out-values and final queue for every history — the queue runs on a pool exactly as on malloc as
+long as the pool refuses the same calls (in particular: none) -/
+theorem history_allocator_independent (cmp : Nat → Nat → Int) (grow : Nat → Nat) (ops : List Op) (q : PQueue)
+    (m m' : Mem) (hs : m.sched = m'.sched) :
+    (PQueue.run cmp grow q ops m).1 = (PQueue.run cmp grow q ops m').1 ∧
+    (PQueue.run cmp grow q ops m).2.1 = (PQueue.run cmp grow q ops m').2.1 := by
+  induction ops generalizing q m m' with
+  | nil => exact ⟨rfl, rfl⟩
+  | cons op ops ih =>
+    obtain ⟨h1, h2, h3⟩ := allocator_independent cmp grow q op m m' hs
+    simp only [PQueue.run]
+    rw [h1, h2]
+    have := ih (PQueue.step cmp grow q op m').2.1 (PQueue.step cmp grow q op m).2.2 (PQueue.step cmp grow q op m').2.2 h3
+    rw [this.1, this.2]
+    exact ⟨rfl, rfl⟩
 
 /-- the constructor too: same schedule, same status and same queue -/
-theorem new_allocator_independent (cap : Nat) (exGe : Nat → Bool) (m m' : Mem) (hs : m.sched = m'.sched) :
-    (PQueue.new cap exGe m).1 = (PQueue.new cap exGe m').1 ∧ (PQueue.new cap exGe m).2.1 = (PQueue.new cap exGe m').2.1 := by
-  have a1 := PQueue.alloc_sched_congr m m' hs
-  have a2 := PQueue.alloc_sched_congr m.alloc.2 m'.alloc.2 a1.2
+theorem new_allocator_independent (cap : Nat) (exGe : Nat → Bool) (t : Triple) (m m' : Mem) (hs : m.sched = m'.sched) :
+    (PQueue.new cap exGe t m).1 = (PQueue.new cap exGe t m').1 ∧ (PQueue.new cap exGe t m).2.1 = (PQueue.new cap exGe t m').2.1 := by
+  have a1 := Mem.allocT_sched_congr m m' t hs
+  have a2 := Mem.allocT_sched_congr (m.allocT t).2 (m'.allocT t).2 t a1.2
   unfold PQueue.new
   split
   · exact ⟨rfl, rfl⟩
@@ -77,6 +151,10 @@ theorem new_allocator_independent (cap : Nat) (exGe : Nat → Bool) (m m' : Mem)
     · exact ⟨rfl, rfl⟩
     · dsimp only
       rw [a1.1, a2.1]
-      cases m'.alloc.1 <;> cases m'.alloc.2.alloc.1 <;> exact ⟨rfl, rfl⟩
+      cases (m'.allocT t).1 <;> cases ((m'.allocT t).2.allocT t).1 <;> exact ⟨rfl, rfl⟩
+
+/-! Non-vacuity: the two triples are distinguishable in the ledger -/
+example : (({} : Mem).allocT .libc).2.libc = 1 ∧ (({} : Mem).allocT .conf).2.libc = 0 ∧
+    (({} : Mem).allocT .conf).2.live = 1 := by decide
 
 end CC.Properties.C14PQueue
